@@ -415,7 +415,7 @@ func genBlocked(g *prng.R) c06Case {
 func init() {
 	checks["c06"] = func(id string) int {
 		r := newRun(id, "exploration")
-		r.Rule = "inbox POSTs over (a) Update/Delete with activity-id host vs 1..3 object-id hosts in {equal, different, port-differing, sub-domain, case-only} as IRIs or embedded objects, (b) Accept/Follow graphs with the stored Follow present / absent / of another type / with another actor / lacking an accepting actor / with extra objects, the Follow embedded or by IRI (a forged remote copy is served), (c) Undo with actor sets equal / subset / superset / disjoint over 1..3 undone activities (the uncovered one anywhere; embedded copies that disagree with the served document; unfetchable and actor-less documents), (d) 1..3 activity actors each as IRI or embedded object, each blocked or not; the store delta, the Blocked argument and the response are compared with a model of the four checks; non-trivial = a case whose model outcome is 'reject' or whose actors include an embedded object; distinct by scenario"
+		r.Rule = "inbox POSTs over (a) Update/Delete with activity-id host vs 1..3 object-id hosts in {equal, different, port-differing, sub-domain, case-only} as IRIs or embedded objects, (b) Accept/Follow graphs with the stored Follow present / absent / of another type / with another actor / lacking an accepting actor / with extra objects, the Follow embedded or by IRI (a forged remote copy is served), (c) Undo with actor sets equal / subset / superset / disjoint over 1..3 undone activities (the uncovered one anywhere; embedded copies that disagree with the served document; unfetchable and actor-less documents), (d) 1..3 activity actors each as IRI or embedded object, each blocked or not; the store delta, the Blocked argument and the response are compared with a model of the four checks; undone activities whose document is of an unknown type; non-trivial = a case whose model outcome is 'reject' or whose actors include an embedded object; distinct by scenario"
 		r.Assumptions = []string{"hosts differing only in letter case are accepted with either outcome", "store equality is JSON equality of the simulated byte store, the inbox page excepted"}
 		judge := func(cs c06Case) {
 			sc := cs.Sc
